@@ -78,6 +78,20 @@ def natural_scripts(quick):
                        {'op': 'get', 'var': 'w', 'attr': 'user_state', 'tag': 'state-first', 'digest': True},
                        {'op': 'get', 'var': 'w', 'attr': 'has_error', 'tag': 'has_error'}]
                 out.append({'script': sc, 'kind': kind, 'init': None, 'm': 1, 'ending': ending, 'part': 'natural', 'big': size})
+    # a final state bigger than a pipe buffer held by a child that is ended by a graceful terminate(): the report of the child has to be
+    # read while the parent waits for it to go
+    for kind in ('P', 'PP', 'R', 'PR'):
+        for size in ((1 << 20,) if quick else (65537, 300000, 1 << 20, 4 << 20)):
+            sc = [{'op': 'create', 'var': 'w', 'kind': kind, 'wcls': 'State', 'target': 't_ret_now', 'init_state': None,
+                   'kwargs': {'m': 1, 'ending': 'spin', 'big': size}}]
+            if kind in ('PP', 'PR'):
+                sc += [{'op': 'call', 'var': 'w', 'method': 'enqueue', 'args': []}]
+            sc += [{'op': 'sleep', 's': 0.4},
+                   {'op': 'call', 'var': 'w', 'method': 'terminate', 'args': [5], 'timeout': 30},
+                   {'op': 'call', 'var': 'w', 'method': 'wait', 'args': [20], 'timeout': 40},
+                   {'op': 'get', 'var': 'w', 'attr': 'user_state', 'tag': 'state-first', 'digest': True},
+                   {'op': 'get', 'var': 'w', 'attr': 'has_error', 'tag': 'has_error'}]
+            out.append({'script': sc, 'kind': kind, 'init': None, 'm': 1, 'ending': 'terminated', 'part': 'natural', 'big': size})
     return out
 
 
@@ -195,7 +209,7 @@ def judge_natural(case, obs):
     if case.get('big'):
         got = t['state-first'].get('ret')
         ok = isinstance(got, dict) and got.get('len') == 2 and got.get('head') == 'big' and got.get('size') == case['big']
-        return [] if ok else [('big-state-not-synchronised-slow-reader', {'got': str(t['state-first'])[:200], 'expected_size': case['big']})]
+        return [] if ok else [('big-state-not-synchronised-' + ('after-terminate' if case['ending'] == 'terminated' else 'slow-reader'), {'got': str(t['state-first'])[:200], 'expected_size': case['big']})]
     exp = ['assigned', case['m']] if case['m'] > 0 else case['init']
     if 'expect_state' in case:
         exp = case['expect_state'][0]
